@@ -62,6 +62,33 @@ impl SimFs {
             .collect()
     }
 
+    /// Like `resolve`, for a path that must name a directory (`.` and `..` allowed at the end).
+    pub fn resolve_dir(&self, base: &str, url: &str) -> Option<String> {
+        if url.starts_with('/') || !self.is_dir(base) {
+            return None;
+        }
+        let mut cur: String = base.to_string();
+        for c in url.split('/') {
+            match c {
+                "" | "." => {}
+                ".." => {
+                    if cur.is_empty() {
+                        return None;
+                    }
+                    cur = parent(&cur).to_string();
+                }
+                name => {
+                    let next = if cur.is_empty() { name.to_string() } else { format!("{cur}/{name}") };
+                    if !self.is_dir(&next) {
+                        return None;
+                    }
+                    cur = next;
+                }
+            }
+        }
+        Some(cur)
+    }
+
     /// Resolve `url` against directory `base` the way the kernel resolves
     /// `base.join(url)`: every intermediate component must be an existing
     /// directory; `.` stays, `..` goes to the parent.  Returns the canonical
